@@ -674,6 +674,9 @@ class FuncGen:
                         v = self.g.pick(movable)
                         moved.append(v)
                         args.append(v)
+                        # gone at once: a nested call generated for a later argument must not move
+                        # (or lend) the same array again
+                        del self.env[v]
                     else:
                         args.append(self.g.literal(t, small=True))
                 else:
@@ -683,8 +686,6 @@ class FuncGen:
                     args.append(self.g.pick(vs))
             else:
                 args.append(self.expr(t, 1))
-        for v in moved:
-            del self.env[v]
         return f"{f.name}({', '.join(args)})"
 
     # --------------------------------------------------------------------------- expressions
